@@ -224,7 +224,7 @@ Fixpoint ae_expected (st : av) (ops : list aop) : list (list goerr) :=
   | [] => []
   | ASet v _ :: tl => let st1 := fst (ae_set guard_today st v) in [st1] :: ae_expected st1 tl
   | ALoad _ :: tl => [st] :: ae_expected st tl
-  | AConc vs _ o :: tl =>
+  | AConc vs _ _ o :: tl =>
     (match non_nil_of vs with [] => [st] | nn => nn end) :: ae_expected o tl
   end.
 
